@@ -225,7 +225,10 @@ func inject(t *rapid.T, c *Case, kind string) (df Defect, ok bool) {
 			insertAt(t, sr.sels, &hx.Sel{Kind: "field", Alias: "dfct", Name: "__typename", Dirs: []hx.DirUse{du}})
 			df.Key = "dfct"
 		case where == 1 && len(c.Doc.Frags) > 0:
-			insertAt(t, sr.sels, &hx.Sel{Kind: "spread", Name: c.Doc.Frags[0].Name, Dirs: []hx.DirUse{du}})
+			// spread an existing fragment from the operation's own selection set (never from inside a
+			// fragment: that could close a spread cycle, which is a different defect)
+			insertAt(t, sets[0].sels, &hx.Sel{Kind: "spread", Name: c.Doc.Frags[0].Name, Dirs: []hx.DirUse{du}})
+			sr = sets[0]
 		case where == 2 && kind == "misplaced-directive" && du.Name == "deprecated": // @go and @onquery are legal on an operation
 			op.Dirs = append(op.Dirs, du)
 			op.Anon = false
